@@ -143,7 +143,7 @@ func (g *Gen) sizeAt(depth int, elem *Ty) int {
 		n = 6
 	case depth == 0 && !isPrim(elem) && n > 40:
 		n = 40
-	case depth == 1 && n > 40:
+	case depth == 1 && n > 40 && elem.K != "UInt64":
 		n = 40
 	}
 	return n
@@ -153,6 +153,12 @@ func (g *Gen) valOf(t *Ty, depth int) *Val {
 	switch t.K {
 	case "Int":
 		return VInt(int64(g.R.Intn(200)) - 50)
+	case "UInt64":
+		// mostly 9-byte encodings: a fixed-size primitive whose arrays cross the slab size with ~120 elements
+		if g.R.Chance(0.15) {
+			return &Val{T: TU64, I: int64(g.R.Intn(300))}
+		}
+		return &Val{T: TU64, I: int64(1)<<40 + int64(g.R.Intn(1<<20))}
 	case "String":
 		return VStr(g.str())
 	case "Bool":
@@ -367,6 +373,10 @@ func (g *Gen) resourceOp() Op {
 	if nR < 2 && g.R.Chance(0.7) {
 		c = 0
 	}
+	if g.R.Chance(0.04) {
+		// a program violating resource linearity: must be rejected as a whole
+		return Op{K: "r.lin", I: g.R.Intn(linVariants), Edge: true}
+	}
 	switch c {
 	case 0, 1, 2:
 		a, p := g.free()
@@ -461,6 +471,7 @@ var containerTypes = []*Ty{
 	TArr(TInt), TArr(TInt), TArr(TString), TArr(TS), TArr(TArr(TInt)),
 	TDict(TString, TInt), TDict(TInt, TString), TDict(TString, TArr(TInt)), TDict(TString, TS),
 	TCArr(TInt, 3),
+	TArr(TU64), TArr(TArr(TU64)), TDict(TString, TArr(TU64)),
 }
 
 func isContainer(v *Val) bool {
@@ -721,7 +732,15 @@ func (g *Gen) attachOp() Op {
 }
 
 func (g *Gen) controlOp() Op {
-	switch g.R.Intn(3) {
+	switch g.R.Intn(4) {
+	case 3:
+		// recursion well below the smallest configured call-depth limit (256); with J == 1 the execution aborts at the bottom,
+		// with I frames on the stack
+		o := Op{K: "x.recurse", I: 1 + g.R.Intn(150)}
+		if g.R.Chance(0.4) {
+			o.J, o.Edge = 1, true
+		}
+		return o
 	case 0:
 		return Op{K: "x.panic", S: "boom"}
 	case 1:
